@@ -150,30 +150,43 @@ Example C10_identifier_guard_examples :
   validate_identifier [] = false /\ validate_identifier [97; 10] = false.
 Proof. vm_compute. auto 6. Qed.
 
-(* The reStructuredText that getDeprecated hands to the parser is meant to be a directive line plus ONE body line.
-   It is, when the replacement argument holds no line separator other than LF (which the code replaces) ... *)
-Theorem C10_deprecate_one_line_partial :
+(* The reStructuredText that getDeprecated hands to the parser is a directive line plus ONE body line, for EVERY replacement
+   argument (name and version hold no line separator: an identifier and Version.public()) ... *)
+Theorem C10_deprecate_one_line :
   forall name package version repl t,
     deprecation_text name package version repl = Some t ->
     nbk name = true -> nbk version = true ->
-    (forall r, repl = Some r -> forallb (fun c => negb (is_break c) || (c =? 10)) r = true) ->
     count_breaks (deprecation_doc version t) = 1%nat.
 Proof. exact deprecate_one_line. Qed.
 
-(* ... and it is not in general: a CR (likewise FS GS RS NEL LS PS) in a non-identifier replacement starts a new line, after
-   which the argument's text is parsed as reST blocks -- a raw directive included (known finding C10-deprecated-replacement;
-   the same argument can also leave its inline literal with a back-quote or with white space at either end, which is a
-   matter of docutils' inline parser and not modelled). *)
-Theorem C10_deprecate_one_line_refuted :
-  exists t, deprecation_text [102] [112] [49] (Some [13]) = Some t /\
-            count_breaks (deprecation_doc [49] t) = 2%nat.
-Proof. exact deprecate_one_line_cr. Qed.
+(* ... and a replacement that is not a dotted identifier sits inside ONE pair of back-quotes: between them there is no
+   back-quote, no line separator, no white space other than single spaces, and none at either end -- whatever the
+   decorator argument holds (after the repair 0e1361d: back-quotes replaced, ' '.join(x.split())). *)
+Theorem C10_deprecate_literal :
+  forall r, validate_identifier r = false ->
+    exists body, clean_replacement r = [96] ++ body ++ [96] /\
+      ~ In 96 body /\
+      (forall c, In c body -> memN c line_breaks = false) /\
+      (forall c, In c body -> is_py_space c = true -> c = 32) /\
+      edge_ok body.
+Proof. exact replacement_in_one_literal. Qed.
+
+(* The clean-up before the repair (only LF replaced) violated both: a CR (likewise FS GS RS NEL LS PS) started a new line
+   of reST, after which the argument was parsed as blocks -- a raw directive included; a leading space kept the back-quotes
+   from opening a literal, so the text was parsed as inline reST (standalone javascript: hyperlinks). *)
+Theorem C10_deprecate_one_line_old_refuted :
+  match deprecation_text_old [102] [112] [49] (Some [13]) with
+  | Some t => count_breaks (deprecation_doc [49] t) = 2%nat
+  | None => False
+  end /\
+  clean_with old_ops [32; 106; 58; 120] = [96; 32; 106; 58; 120; 96] /\
+  clean_replacement [32; 106; 58; 120] = [96; 106; 58; 120; 96].
+Proof. split; [exact deprecate_old_cr | exact deprecate_old_edge]. Qed.
 
 Example C10_deprecate_hypotheses_satisfiable :
-  match deprecation_text [102] [112; 46; 113] [49; 46; 50] (Some nasty) with
+  match deprecation_text [102] [112; 46; 113] [49; 46; 50] (Some (nasty ++ [13; 13; 96; 32])) with
   | Some t =>
-    nbk [102] = true /\ nbk [49; 46; 50] = true /\
-    forallb (fun c => negb (is_break c) || (c =? 10)) nasty = true /\
+    nbk [102] = true /\ nbk [49; 46; 50] = true /\ validate_identifier (nasty ++ [13; 13; 96; 32]) = false /\
     count_breaks (deprecation_doc [49; 46; 50] t) = 1%nat
   | None => False
   end.
